@@ -279,6 +279,9 @@ func (conv *converter) expandMacro(macro *localMacroFunc, call *ast.CallExpr) ir
 	}
 	args := map[string]ast.Expr{}
 	for i, arg := range call.Args {
+		if i >= len(macro.params) {
+			panic(conv.errorf(arg, "%s: variadic and unnamed parameters are not supported", macro.name))
+		}
 		paramName := macro.params[i]
 		if !isSafe(arg) {
 			panic(conv.errorf(arg, "unsupported/too complex %s argument", paramName))
@@ -366,6 +369,9 @@ func (conv *converter) localDefine(assign *ast.AssignStmt) {
 	stmt, ok := fn.Body.List[0].(*ast.ReturnStmt)
 	if !ok {
 		panic(conv.errorf(fn.Body.List[0], "expected a return statement, found %T", fn.Body.List[0]))
+	}
+	if len(stmt.Results) != 1 {
+		panic(conv.errorf(stmt, "expected a return statement with 1 result"))
 	}
 	var params []string
 	for _, field := range fn.Type.Params.List {
@@ -678,28 +684,35 @@ func (conv *converter) convertFilterExprImpl(e ast.Expr) ir.FilterExpr {
 
 	case *ast.CallExpr:
 		op := conv.inspectFilterSelector(e)
+		// A user method that is merely named like a DSL predicate may have no arguments.
+		arg0 := func() ast.Expr {
+			if len(e.Args) == 0 {
+				panic(conv.errorf(e, "%s: expected an argument", op.path))
+			}
+			return e.Args[0]
+		}
 		switch op.path {
 		case "Deadcode":
 			return ir.FilterExpr{Op: ir.FilterDeadcodeOp}
 		case "GoVersion.Eq":
-			return ir.FilterExpr{Op: ir.FilterGoVersionEqOp, Value: conv.parseStringArg(e.Args[0])}
+			return ir.FilterExpr{Op: ir.FilterGoVersionEqOp, Value: conv.parseStringArg(arg0())}
 		case "GoVersion.LessThan":
-			return ir.FilterExpr{Op: ir.FilterGoVersionLessThanOp, Value: conv.parseStringArg(e.Args[0])}
+			return ir.FilterExpr{Op: ir.FilterGoVersionLessThanOp, Value: conv.parseStringArg(arg0())}
 		case "GoVersion.GreaterThan":
-			return ir.FilterExpr{Op: ir.FilterGoVersionGreaterThanOp, Value: conv.parseStringArg(e.Args[0])}
+			return ir.FilterExpr{Op: ir.FilterGoVersionGreaterThanOp, Value: conv.parseStringArg(arg0())}
 		case "GoVersion.LessEqThan":
-			return ir.FilterExpr{Op: ir.FilterGoVersionLessEqThanOp, Value: conv.parseStringArg(e.Args[0])}
+			return ir.FilterExpr{Op: ir.FilterGoVersionLessEqThanOp, Value: conv.parseStringArg(arg0())}
 		case "GoVersion.GreaterEqThan":
-			return ir.FilterExpr{Op: ir.FilterGoVersionGreaterEqThanOp, Value: conv.parseStringArg(e.Args[0])}
+			return ir.FilterExpr{Op: ir.FilterGoVersionGreaterEqThanOp, Value: conv.parseStringArg(arg0())}
 		case "File.Imports":
-			return ir.FilterExpr{Op: ir.FilterFileImportsOp, Value: conv.parseStringArg(e.Args[0])}
+			return ir.FilterExpr{Op: ir.FilterFileImportsOp, Value: conv.parseStringArg(arg0())}
 		case "File.PkgPath.Matches":
-			return ir.FilterExpr{Op: ir.FilterFilePkgPathMatchesOp, Value: conv.parseStringArg(e.Args[0])}
+			return ir.FilterExpr{Op: ir.FilterFilePkgPathMatchesOp, Value: conv.parseStringArg(arg0())}
 		case "File.Name.Matches":
-			return ir.FilterExpr{Op: ir.FilterFileNameMatchesOp, Value: conv.parseStringArg(e.Args[0])}
+			return ir.FilterExpr{Op: ir.FilterFileNameMatchesOp, Value: conv.parseStringArg(arg0())}
 
 		case "Contains":
-			pat := conv.parseStringArg(e.Args[0])
+			pat := conv.parseStringArg(arg0())
 			return ir.FilterExpr{
 				Op:    ir.FilterVarContainsOp,
 				Value: op.varName,
@@ -710,9 +723,9 @@ func (conv *converter) convertFilterExprImpl(e ast.Expr) ir.FilterExpr {
 
 		case "Type.IdenticalTo":
 			// TODO: reuse the code with parsing At() args?
-			index, ok := e.Args[0].(*ast.IndexExpr)
+			index, ok := arg0().(*ast.IndexExpr)
 			if !ok {
-				panic(conv.errorf(e.Args[0], "expected %s[`varname`] expression", conv.group.MatcherName))
+				panic(conv.errorf(arg0(), "expected %s[`varname`] expression", conv.group.MatcherName))
 			}
 			rhsVarname := conv.parseStringArg(index.Index)
 			args := []ir.FilterExpr{
@@ -721,9 +734,9 @@ func (conv *converter) convertFilterExprImpl(e ast.Expr) ir.FilterExpr {
 			return ir.FilterExpr{Op: ir.FilterVarTypeIdenticalToOp, Value: op.varName, Args: args}
 
 		case "Filter":
-			funcName, ok := e.Args[0].(*ast.Ident)
+			funcName, ok := arg0().(*ast.Ident)
 			if !ok {
-				panic(conv.errorf(e.Args[0], "only named function args are supported"))
+				panic(conv.errorf(arg0(), "only named function args are supported"))
 			}
 			args := []ir.FilterExpr{
 				{Op: ir.FilterFilterFuncRefOp, Value: funcName.String()},
@@ -746,7 +759,7 @@ func (conv *converter) convertFilterExprImpl(e ast.Expr) ir.FilterExpr {
 		case "Node.Parent.Is":
 			if op.varName != "$$" {
 				// TODO: remove this restriction.
-				panic(conv.errorf(e.Args[0], "only $$ parent nodes are implemented"))
+				panic(conv.errorf(arg0(), "only $$ parent nodes are implemented"))
 			}
 			return ir.FilterExpr{Op: ir.FilterRootNodeParentIsOp, Args: args}
 		case "Object.Is":
@@ -758,7 +771,7 @@ func (conv *converter) convertFilterExprImpl(e ast.Expr) ir.FilterExpr {
 		case "SinkType.Is":
 			if op.varName != "$$" {
 				// TODO: remove this restriction.
-				panic(conv.errorf(e.Args[0], "sink type is only implemented for $$ var"))
+				panic(conv.errorf(arg0(), "sink type is only implemented for $$ var"))
 			}
 			return ir.FilterExpr{Op: ir.FilterRootSinkTypeIsOp, Value: op.varName, Args: args}
 		case "Type.HasPointers":
